@@ -360,7 +360,7 @@ def cases(rng, tier):
                         continue
                     out.append({"payload": pay, "coding": coding, "framing": framing, "chunks": [3, 11], "ext": coding == "gzip", "segs": [7, 1, 64], "decode": True,
                                 "calls": [list(c) for c in calls], "finish": list(fin)})
-    for _ in range(3000 if tier == "quick" else 40000):
+    for _ in range(3000 if tier == "quick" else 200000):
         out.append(one_case(rng))
     return out
 
